@@ -41,7 +41,7 @@ def one(ctx: Ctx, rng, mode: str, pending: list) -> None:
     ctx.count("family:" + inp["family"])
     ctx.count("init:" + ("valid" if valid else segs[0]))
     for (op, b, a, e) in steps:
-        if op[0] != "init":
+        if op[0] not in ("init", "input-mutated"):
             ctx.count("op:" + op[0] + (":err" if e else ""))
     if any(len(c["alloc"]) == 0 for c in inp["cells"]):
         ctx.count("has-empty-map")
